@@ -1,4 +1,186 @@
 import Exetera.Model.Spans
 import Exetera.Spec.Spans
+import Exetera.Lemmas.Spans
+import Exetera.Lemmas.SpansApply
+/-!
+  C08 — spans are the maximal runs of equal adjacent rows; reductions respect them.
+  Every theorem is about the definitions of `Model/Spans.lean` that the driver runs, for all inputs.
+-/
 namespace Exetera.Props.C08
+
+open Exetera Exetera.Spans Exetera.Spec
+
+/-! ## get_spans_for_field -/
+
+/-- `get_spans_for_field` returns exactly the specification's span array, whatever the element comparison. -/
+theorem get_spans_for_field_eq_spec {α} (ne : α → α → Bool) (xs : List α) :
+    getSpansForField ne xs = spans ne xs :=
+  getSpansForField_eq_spec ne xs
+
+example : getSpansForField (fun (a b : Int) => a != b) [1, 2, 2, 1, 1, 1, 3] = [0, 1, 3, 6, 7] := by decide
+
+/-- the result is strictly increasing, starts at 0 and ends at the row count (also for 0 and 1 rows) -/
+theorem spans_wellformed {α} (ne : α → α → Bool) (xs : List α) :
+    Wellformed (getSpansForField ne xs) xs.length := by
+  rw [getSpansForField_eq_spec]; exact spans_wellformed' ne xs
+
+example : Wellformed (getSpansForField (fun (a b : Int) => a != b) []) 0 := spans_wellformed _ _
+
+/-- a row number `0 < i < n` is a span start iff row `i-1` and row `i` differ -/
+theorem boundary_iff_adjacent_differ {α} (ne : α → α → Bool) (xs : List α) (i : Nat) (h0 : 0 < i) (hi : i < xs.length) :
+    i ∈ getSpansForField ne xs ↔ ne (xs[i - 1]'(by omega)) xs[i] = true := by
+  rw [getSpansForField_eq_spec, mem_spans, isBoundary_eq ne xs i h0 hi]
+  constructor
+  · rintro (h | h | h)
+    · omega
+    · omega
+    · exact h
+  · intro h; exact Or.inr (Or.inr h)
+
+/-- **adjacent rows are equal iff they lie in the same span** (`ne a b = (a != b)`: byte-exact for strings, all
+    fields jointly for tuples) -/
+theorem same_span_iff_equal_adjacent {α} [BEq α] [LawfulBEq α] (xs : List α) (i : Nat) (h0 : 0 < i) (hi : i < xs.length) :
+    SameSpan (getSpansForField neq xs) (i - 1) i ↔ xs[i - 1]'(by omega) = xs[i] := by
+  have hb := boundary_iff_adjacent_differ neq xs i h0 hi
+  constructor
+  · intro hs
+    by_cases hm : i ∈ getSpansForField neq xs
+    · have := (hs i hm).2 (Nat.le_refl i); omega
+    · have : ¬ neq (xs[i - 1]'(by omega)) xs[i] = true := fun h => hm (hb.2 h)
+      simpa [neq] using this
+  · intro heq b hbm
+    constructor
+    · intro h; omega
+    · intro h
+      by_cases hbi : b = i
+      · subst hbi
+        have := hb.1 hbm
+        simp [neq, heq] at this
+      · omega
+
+example : SameSpan (getSpansForField neq [5, 5, 7]) 0 1 ∧ ¬ SameSpan (getSpansForField neq [5, 5, 7]) 1 2 := by
+  refine ⟨(same_span_iff_equal_adjacent [5, 5, 7] 1 (by decide) (by decide)).2 rfl, ?_⟩
+  intro h; have := (same_span_iff_equal_adjacent [5, 5, 7] 2 (by decide) (by decide)).1 h
+  simp at this
+
+/-- maximality: two rows `i ≤ j` are in the same span iff all rows between them are equal to their neighbours -/
+theorem same_span_iff_run {α} [BEq α] [LawfulBEq α] (xs : List α) (i j : Nat) (hij : i ≤ j) (hj : j < xs.length) :
+    SameSpan (getSpansForField neq xs) i j ↔ ∀ k (_ : i < k) (hk : k ≤ j), xs[k - 1]'(by omega) = xs[k]'(by omega) := by
+  constructor
+  · intro hs k hik hkj
+    by_cases heq : xs[k - 1]'(by omega) = xs[k]'(by omega)
+    · exact heq
+    · exfalso
+      have hm : k ∈ getSpansForField neq xs :=
+        (boundary_iff_adjacent_differ neq xs k (by omega) (by omega)).2 (by simpa [neq] using heq)
+      have := (hs k hm).2 hkj
+      omega
+  · intro hrun b hbm
+    constructor
+    · intro h; omega
+    · intro hbj
+      by_cases hbi : b ≤ i
+      · exact hbi
+      · exfalso
+        have hb := (boundary_iff_adjacent_differ neq xs b (by omega) (by omega)).1 hbm
+        have := hrun b (by omega) hbj
+        simp [neq, this] at hb
+
+/-! ## apply_spans_* : one entry per span, computed over exactly the rows of that span -/
+
+/-- count = number of rows of each span -/
+theorem apply_spans_count_eq (sp : List Nat) (src : List Int) (h : Wellformed sp src.length) :
+    applySpansCount sp = .ok ((pairs sp).map (fun p => ((rowsOf src p).length : Int))) := by
+  unfold applySpansCount forSpans
+  simp only [wellformed_ne_nil h, Bool.false_eq_true, if_false]
+  rw [forPairs_total (fun c n => (n : Int) - c)]
+  congr 1
+  apply List.map_congr_left
+  intro p hp
+  have := pairs_wellformed h p hp
+  unfold rowsOf
+  rw [slice_length_of_le _ _ _ this.2]
+  omega
+
+example : applySpansCount [0, 2, 3] = .ok [2, 1] := rfl
+
+/-- index_of_first / index_of_last = first / last row number of each span -/
+theorem apply_spans_index_of_first_eq (sp : List Nat) (hne : sp.isEmpty = false) :
+    applySpansIndexOfFirst sp = .ok ((pairs sp).map (fun p => (p.1 : Int))) := by
+  unfold applySpansIndexOfFirst forSpans
+  simp only [hne, Bool.false_eq_true, if_false]
+  exact forPairs_total (fun c _ => (c : Int)) sp
+
+theorem apply_spans_index_of_last_eq (sp : List Nat) (hne : sp.isEmpty = false) :
+    applySpansIndexOfLast sp = .ok ((pairs sp).map (fun p => (p.2 : Int) - 1)) := by
+  unfold applySpansIndexOfLast forSpans
+  simp only [hne, Bool.false_eq_true, if_false]
+  exact forPairs_total (fun _ n => (n : Int) - 1) sp
+
+example : applySpansIndexOfLast [0, 2, 3] = .ok [1, 2] := rfl
+
+/-- first = first row of each span (no out-of-bounds read) -/
+theorem apply_spans_first_eq (sp : List Nat) (src : List Int) (h : Wellformed sp src.length) :
+    ∃ r, applySpansFirst sp src = .ok r ∧ r.map some = (pairs sp).map (fun p => (rowsOf src p).head?) :=
+  forSpans_spec _ _ sp (wellformed_ne_nil h) (fun p hp => by
+    have hw := pairs_wellformed h p hp
+    have hc : p.1 < src.length := by omega
+    refine ⟨src[p.1], getE_of_lt _ hc, ?_⟩
+    simp only [rowsOf]
+    rw [slice_head? src p.1 p.2 hw.1, List.getElem?_eq_getElem hc])
+
+/-- last = last row of each span -/
+theorem apply_spans_last_eq (sp : List Nat) (src : List Int) (h : Wellformed sp src.length) :
+    ∃ r, applySpansLast sp src = .ok r ∧ r.map some = (pairs sp).map (fun p => (rowsOf src p).getLast?) :=
+  forSpans_spec _ _ sp (wellformed_ne_nil h) (fun p hp => by
+    have hw := pairs_wellformed h p hp
+    have hc : p.2 - 1 < src.length := by omega
+    refine ⟨src[p.2 - 1], ?_, ?_⟩
+    · unfold getWrapE
+      have h0 : (0 : Int) ≤ (p.2 : Int) - 1 := by omega
+      simp only [h0, if_true]
+      have : ((p.2 : Int) - 1).toNat = p.2 - 1 := by omega
+      rw [this]; exact getE_of_lt _ hc
+    · simp only [rowsOf]
+      rw [slice_getLast? src p.1 p.2 hw.1 hw.2, List.getElem?_eq_getElem hc])
+
+example : applySpansLast [0, 2, 3] [7, 8, 9] = .ok [8, 9] := rfl
+
+/-- min / max = minimum / maximum over exactly the rows of each span -/
+theorem apply_spans_min_eq (sp : List Nat) (src : List Int) (h : Wellformed sp src.length) :
+    ∃ r, applySpansMin sp src = .ok r ∧ r.map some = (pairs sp).map (fun p => (rowsOf src p).min?) :=
+  forSpans_spec _ _ sp (wellformed_ne_nil h) (fun p hp =>
+    have hw := pairs_wellformed h p hp
+    spanMin_spec src p.1 p.2 hw.1 hw.2)
+
+theorem apply_spans_max_eq (sp : List Nat) (src : List Int) (h : Wellformed sp src.length) :
+    ∃ r, applySpansMax sp src = .ok r ∧ r.map some = (pairs sp).map (fun p => (rowsOf src p).max?) :=
+  forSpans_spec _ _ sp (wellformed_ne_nil h) (fun p hp =>
+    have hw := pairs_wellformed h p hp
+    spanMax_spec src p.1 p.2 hw.1 hw.2)
+
+example : applySpansMin [0, 2, 5] [3, 1, 4, 1, 5] = .ok [1, 1] ∧ applySpansMax [0, 2, 5] [3, 1, 4, 1, 5] = .ok [3, 5] :=
+  ⟨rfl, rfl⟩
+
+/-- index_of_min / index_of_max = row number of the FIRST minimal / maximal row of each span (numpy argmin/argmax) -/
+theorem apply_spans_index_of_min_eq (sp : List Nat) (src : List Int) (h : Wellformed sp src.length) :
+    ∃ r, applySpansIndexOfMin sp src = .ok r ∧
+      r.map some = (pairs sp).map (fun p => (argminOf (rowsOf src p)).map (fun k => ((p.1 + k : Nat) : Int))) :=
+  forSpans_spec _ _ sp (wellformed_ne_nil h) (fun p hp =>
+    have hw := pairs_wellformed h p hp
+    spanIndexOfMin_spec src p.1 p.2 hw.1 hw.2)
+
+theorem apply_spans_index_of_max_eq (sp : List Nat) (src : List Int) (h : Wellformed sp src.length) :
+    ∃ r, applySpansIndexOfMax sp src = .ok r ∧
+      r.map some = (pairs sp).map (fun p => (argmaxOf (rowsOf src p)).map (fun k => ((p.1 + k : Nat) : Int))) :=
+  forSpans_spec _ _ sp (wellformed_ne_nil h) (fun p hp =>
+    have hw := pairs_wellformed h p hp
+    spanIndexOfMax_spec src p.1 p.2 hw.1 hw.2)
+
+example : applySpansIndexOfMin [0, 2, 5] [3, 1, 4, 1, 1] = .ok [1, 3] ∧
+    applySpansIndexOfMax [0, 2, 5] [3, 3, 4, 5, 5] = .ok [0, 3] := ⟨rfl, rfl⟩
+
+/-- hypotheses of the reduction theorems are met by the spans the library itself computes -/
+example (xs : List Int) : Wellformed (getSpansForField neq xs) xs.length := spans_wellformed neq xs
+
 end Exetera.Props.C08
